@@ -480,7 +480,9 @@ def rule_r3(repo):
     js = [render_json(repo, *s) for s in subsets]
     zero = build_tree(2)
     cases = [('@[0]/001001', [0]), ('@[1]/001001', [1]), ('@[-1]/001001', [2]), ('@[::2]/340011/004001', [0, 2]), ('@[1:]/102000/012101[0]', [1, 2]),
-             ('/102000/007004', [0, 1, 2]), ('@[2]/012101[-1]', [2]), ('@[5]/001001', None), ('@[::-1]/001001', [2, 1, 0]), ('@[2:0:-1]/340011/004001', [2, 1])]
+             ('/102000/007004', [0, 1, 2]), ('@[2]/012101[-1]', [2]), ('@[5]/001001', None), ('@[::-1]/001001', [2, 1, 0]), ('@[2:0:-1]/340011/004001', [2, 1]),
+             # paths that select no node: every selected subset is still in the result, with nothing in it
+             ('/340011/004001[7]', [0, 1, 2]), ('@[1:]/001001[3:]', [1, 2]), ('@[::-1]/340011/004001[5:9]', [2, 1, 0])]
     for compressed in (False, True):
         msg = make_message(subsets, compressed)
         for path, want_idx in cases:
@@ -518,15 +520,18 @@ def rule_r3(repo):
         if got != want:
             rr.fail('DataQuerent.query:per-subset-tree', fi.where, 'query %r on three uncompressed subsets with equal descriptors but different attribute owners returns %s; '
                     'evaluating the path over each subset\'s own nested rendering gives %r' % (path, got if r.ok else 'raises ' + r.exc.cls, want), witness={'path': path})
-    # zero-count delayed replication: querying a child gives an empty list
-    msg = make_message([zero], False)
-    for path in ('/102000/007004', '/102000/012101[0]'):
-        fi, r = run_query(repo, msg, path)
-        rr.instance('%s on a zero-count replication -> []' % path)
-        got = result_values(r) if r.ok else None
-        if not r.ok or got != {0: []}:
-            rr.fail('DataQuerent.query:zero-count', fi.where, 'query %r on a delayed replication with zero repetitions gives %s (expected an empty list)' % (
-                path, got if r.ok else r.exc.cls))
+    # zero-count delayed replication: querying a child gives an empty list - for every selected subset, compressed or not
+    for n_sub, compressed in ((1, False), (2, False), (2, True), (3, True)):
+        msg = make_message([zero] * n_sub, compressed)
+        for path in ('/102000/007004', '/102000/012101[0]') + (('@[1:]/102000/007004',) if n_sub > 1 else ()):
+            fi, r = run_query(repo, msg, path)
+            rr.instance('%s on a zero-count replication, %d %s subset(s) -> []' % (path, n_sub, 'compressed' if compressed else 'uncompressed'))
+            got = result_values(r) if r.ok else None
+            want = dict((i, []) for i in (range(1, n_sub) if path.startswith('@[1:]') else range(n_sub)))
+            if not r.ok or got != want:
+                rr.fail('DataQuerent.query:zero-count', fi.where, 'query %r on %d %s subset(s) whose delayed replication has zero repetitions gives %s (expected %r: an empty '
+                        'list for each selected subset)' % (path, n_sub, 'compressed' if compressed else 'uncompressed', got if r.ok else r.exc.cls, want),
+                        witness={'path': path, 'compressed': compressed, 'subsets': n_sub})
     rr.require_floor(16)
     return rr
 
